@@ -377,6 +377,79 @@ pub fn run_dict(ctx: &Ctx, out: &mut Outcome, oracle: TreeOracle) {
     out.stats.add("dictionary sweep: programs whose script was not followed (skipped)", unfollowed);
 }
 
+/// Programs taller than any 16-bit quantity: every opcode the loop offers on the empty machine (quick tier: MARK only), repeated 66 000
+/// times through the scripted-choice hook (a shape is used only if the loop follows it at height 3), then the free
+/// step, the collapse tail and STOP. Judged as a whole by the reference machine (the C01 discipline); no per-step
+/// state is recorded, so a run costs a fraction of a second.
+pub fn run_tall(ctx: &Ctx, out: &mut Outcome) {
+    if out.failed() {
+        return;
+    }
+    const HEIGHT: usize = 66_000;
+    let mut cases: Vec<ScriptCase> = Vec::new();
+    for protocol in 0u8..=5 {
+        let root = ScriptCase { protocol, script: vec![], entropy: Entropy::Bytes(vec![]), allow_ext: true, allow_buffer: true };
+        let Ok(n0) = run_node(&root, TreeOracle::C01) else { continue };
+        for v in n0.valid {
+            // generation is quadratic in the stack depth for every opcode but MARK (about a minute per shape at this
+            // height): the quick tier runs the MARK shape only, the thorough tier all of them
+            if !ctx.thorough() && v != t::MARK {
+                continue;
+            }
+            let probe = ScriptCase { protocol, script: vec![v; 3], entropy: Entropy::Bytes(vec![]), allow_ext: true, allow_buffer: true };
+            if run_node(&probe, TreeOracle::C01).is_ok() {
+                cases.push(ScriptCase { protocol, script: vec![v; HEIGHT], entropy: Entropy::Bytes(vec![]), allow_ext: true, allow_buffer: true });
+            }
+        }
+    }
+    let results = par_map(&cases, |sc| -> Result<bool, Fail> {
+        let case = sc.gencase();
+        let cfg = TraceCfg { script: sc.script.clone(), fuel: Some(100 * (HEIGHT as u64 + 1) + 10_000), draw_fuel: Some(100_000 * (HEIGHT as u64 + 8)), ..Default::default() };
+        let (res, tr) = case.run_traced(cfg, None);
+        let o = res.map_err(|e| Fail::new("generation-failed", format!("{} on ({})^{}", e, t::name_of(sc.script[0]), HEIGHT)))?;
+        if tr.script_misses != 0 {
+            return Ok(false);
+        }
+        let ops = lexer::lex_py(&o).map_err(|e| Fail::new(format!("undecodable:{}", e.class), format!("({})^{}: {}", t::name_of(sc.script[0]), HEIGHT, e)))?;
+        let r = machine::run(&ops);
+        if let Some(f) = r.fault {
+            return Err(Fail::new(format!("{}:{}", f.class, t::name_of(f.code)), format!("P{} ({})^{} + tail: {}", sc.protocol, t::name_of(sc.script[0]), HEIGHT, f)));
+        }
+        Ok(true)
+    });
+    let mut followed = 0u64;
+    for (sc, r) in cases.iter().zip(results) {
+        match r {
+            Ok(true) => {
+                followed += 1;
+                out.stats.nontrivial(util::digest_str(&format!("tall{}{}", sc.protocol, sc.script[0])));
+            }
+            Ok(false) => {}
+            Err(f) => {
+                let mut st = Stats::default();
+                if ctx.fail(&mut st, f.clone()).is_err() {
+                    // the replay keeps the shape, not 66 000 script bytes
+                    out.violation = Some(Violation { fail: f, case: json!({"tall": {"protocol": sc.protocol, "opcode": sc.script[0]}}) });
+                    return;
+                }
+            }
+        }
+    }
+    out.stats.evaluations += cases.len() as u64;
+    out.stats.add("tall programs: one opcode repeated 66 000 times, judged by the reference machine", followed);
+}
+
+pub fn replay_tall(ctx: &Ctx, v: &serde_json::Value) -> Result<(), Fail> {
+    // re-run the whole part (cheap) and report its violation, if any
+    let _ = v;
+    let mut out = Outcome::new("");
+    run_tall(ctx, &mut out);
+    match out.violation {
+        Some(v) => Err(v.fail),
+        None => Ok(()),
+    }
+}
+
 pub fn replay(ctx: &Ctx, sc: &ScriptCase, oracle: TreeOracle) -> Result<(), Fail> {
     let mut st = Stats::default();
     match run_node(sc, oracle) {
